@@ -131,9 +131,12 @@ class Scope(object):
 
   @property
   def referenced(self):
+    # Note: names that are only written still belong to the user; generated
+    # symbols must avoid them as well.
+    own = self.read | self.modified | self.bound
     if self.parent is not None:
-      return self.read | self.parent.referenced
-    return self.read
+      return own | self.parent.referenced
+    return own
 
   @property
   def free_vars(self):
